@@ -3,7 +3,7 @@
 From Coq Require Import Reals Lra QArith Qreals List.
 Import ListNotations.
 From Coq Require PrimFloat.
-From EsVerif.C08 Require Import Gen Model Spec Proofs Code SrcLib Src SrcProofs SrcLibF SrcF FProofs Cond Cond2 Cond3 Final Rounding Rounding2 Rounding3 Rounding4 ArrayLayer Examples.
+From EsVerif.C08 Require Import Gen Model Spec Proofs Code SrcLib Src SrcProofs SrcLibF SrcF FProofs Cond Cond2 Cond3 Final Rounding Rounding2 Rounding3 Rounding4 ArrayLayer Examples SkelLib GenMeta GenNp TieProofs Complete.
 Open Scope R_scope.
 
 (* The two formulas of the chord-based function are the great-circle angle of unit vectors. *)
@@ -380,6 +380,33 @@ Theorem C08_sphdist_chord_degrees_binary64 :
   Rabs dk <= u64 -> Rabs dr <= u64 ->
   Rabs (2 * a' * (180 / PI * (1 + dk)) * (1 + dr) - sphdist_code Deg Deg ra1 dec1 ra2 dec2) <= 1 / 10 ^ 11.
 Proof. exact sphdist_chord_degrees_binary64. Qed.
+
+(* --- round 6: tighter tie.  GenMeta.v (statement sequences and keyword defaults read from esutil/coords.py NOW) and
+       GenNp.v (constants of the numpy that runs the check) are regenerated on every run; these lemmas are re-checked --- *)
+Theorem C08_skeleton_tie :
+  thetaphi2xyz_skel = thetaphi2xyz_skel_model /\ eq2xyz_skel = eq2xyz_skel_model
+  /\ sphdist_skel = sphdist_skel_model /\ gcirc_skel = gcirc_skel_model.
+Proof. exact skeleton_tie. Qed.
+
+Theorem C08_defaults_tie :
+  sphdist_units_default = sphdist_units_default_model /\ eq2xyz_units_default = eq2xyz_units_default_model
+  /\ eq2xyz_dtype_is_f8 = eq2xyz_dtype_is_f8_model /\ eq2xyz_stomp_default = eq2xyz_stomp_default_model
+  /\ gcirc_getangle_default = gcirc_getangle_default_model.
+Proof. exact defaults_tie. Qed.
+
+Theorem C08_numpy_constants_tie :
+  PrimFloat.Leibniz.eqb np_deg2rad_1 d2r_c = true /\ PrimFloat.Leibniz.eqb np_rad2deg_1 r2d_c = true
+  /\ PrimFloat.Leibniz.eqb np_pi pi_f = true.
+Proof. exact numpy_constants_tie. Qed.
+
+(* the exact-rational checkers are complete as well as sound: they reject only outputs that violate the checked Prop *)
+Theorem C08_checkers_complete :
+  (forall uout q, range_check uout q = true <-> 0 <= Q2R q <= match uout with Deg => 180 | Rad => Q2R pi_lo end)
+  /\ (forall a b, same_check a b = true <-> Q2R a = Q2R b)
+  /\ (forall a, zero_check a = true <-> Q2R a = 0)
+  /\ (forall tol a b, close_check tol a b = true <-> Rabs (Q2R a - Q2R b) <= Q2R tol)
+  /\ (forall a b c d, ident_inputs a b c d = true <-> Q2R a = Q2R c /\ Q2R b = Q2R d).
+Proof. exact checkers_complete_thm. Qed.
 
 (* non-vacuity of the new theorems: concrete, non-trivial instances satisfying every hypothesis *)
 Example C08_chord_branch_binary64_nonvacuous :
